@@ -57,10 +57,10 @@ Next ==
           IN Commit(DoUpd(tm, tid, inst), [op |-> "tupd", tid |-> tid, t |-> inst])
      \/ \E tid \in DOMAIN tm.keys : Commit(DoDel(tm, tid), [op |-> "tdel", tid |-> tid])
      \* Default keys (slot 0, generation 0) never name a timer
-     \/ \E kind \in Kinds, dd \in AddOffsets :
+     \/ \E kind \in Kinds, dd \in AddOffsets, sign \in {1, -1} :
           /\ "dflt" \in Kinds
           /\ kind # "dflt"
-          /\ LET inst == InstPlus(tm.cnow, dd) IN
+          /\ LET inst == IF sign = 1 THEN InstPlus(tm.cnow, dd) ELSE InstMinus(tm.cnow, dd) IN
              IF kind = "fixed"
              THEN Commit(Emit(Emit(tm, [e |-> "tdelb", tid |-> -1]), [e |-> "tdel", tid |-> -1, kind |-> "fixed", res |-> FALSE]),
                          [op |-> "tdel", tid |-> -1, kind |-> "fixed"])
